@@ -184,9 +184,60 @@ fn lib_choices(rep: &mut Report) {
     lib_choice!(rep, Choice12, 12, _0 L0, 1 _1 L1, 2 _2 L2, 3 _3 L3, 4 _4 L4, 5 _5 L5, 6 _6 L6, 7 _7 L7, 8 _8 L8, 9 _9 L9, 10 _10 L10, ; 11 _11 L11);
 }
 
+/// The same node on `Span::new(text, a, b)`: what an accessor reports must describe the text inside the span.
+fn parse_in_span<'i, N: TypedNode<'i, R>>(text: &'i str, a: usize, b: usize) -> Option<(usize, N)> {
+    use pest_typed::{AsInput, Input};
+    let mut st: Stack<Span<'i>> = Stack::new();
+    let inp = Span::new(text, a, b)?.as_input();
+    let mut tr = Tracker::<R>::new(inp);
+    N::try_parse_partial_with(inp, &mut st, &mut tr).map(|(p, n)| (p.byte_offset(), n))
+}
+
+sw!(Ab, "ab");
+fn on_spans(rep: &mut Report) {
+    use pest_typed::Storage;
+    rep.rules += 3;
+    // NEWLINE: the reported kind is the kind of the text consumed inside the span
+    for (text, a, b, exp) in [
+        ("x\r\n", 1usize, 2usize, Some((2usize, NewLineType::CR))),
+        ("x\r\n", 1, 3, Some((3, NewLineType::CRLF))),
+        ("\r\n", 0, 1, Some((1, NewLineType::CR))),
+        ("\n\r\n", 0, 1, Some((1, NewLineType::LF))),
+        ("a\r\n", 1, 1, None),
+    ] {
+        rep.cases += 1;
+        rep.nontrivial += 1;
+        let got = parse_in_span::<NEWLINE>(text, a, b).map(|(e, n)| (e, n.content));
+        if got != exp {
+            bad(rep, "NEWLINE on Span", text, format!("{:?} for span {}..{}", exp, a, b), format!("{:?}", got));
+        }
+    }
+    // a choice picks the first alternative that matches *inside the span*
+    for (text, a, b, exp_alt, exp_end) in [("ab", 0usize, 1usize, Some(1usize), 1usize), ("ab", 0, 2, Some(0), 2), ("xab", 1, 2, Some(1), 2), ("ab", 0, 0, None, 0)] {
+        rep.cases += 1;
+        rep.nontrivial += 1;
+        let got = parse_in_span::<pest_typed::choices::Choice2<Str<Ab>, Str<Sa>>>(text, a, b);
+        let alt = got.as_ref().map(|(_, n)| if n._0().is_some() { 0 } else { 1 });
+        let end = got.as_ref().map(|(e, _)| *e).unwrap_or(0);
+        if alt != exp_alt || (exp_alt.is_some() && end != exp_end) {
+            bad(rep, "Choice2<\"ab\",\"a\"> on Span", text, format!("alternative {:?} end {} for span {}..{}", exp_alt, exp_end, a, b), format!("alternative {:?} end {}", alt, end));
+        }
+    }
+    // case-insensitive literal: the stored spelling is the text inside the span
+    for (text, a, b, exp) in [("ABé", 0usize, 4usize, Some("ABé")), ("ABéx", 0, 2, None), ("xaBÉ", 1, 3, None)] {
+        rep.cases += 1;
+        let got = parse_in_span::<Insens<Kw>>(text, a, b).map(|(_, n)| n.content.to_string());
+        if got.as_deref() != exp {
+            bad(rep, "Insens<\"abé\"> on Span", text, format!("{:?} for span {}..{}", exp, a, b), format!("{:?}", got));
+        }
+    }
+    let _ = Ab.get_content();
+}
+
 pub fn run(o: &Opts) -> Report {
     let mut rep = Report::default();
     lib_choices(&mut rep);
+    on_spans(&mut rep);
     let chars: Vec<char> = if o.thorough {
         (0u32..=0x10FFFF).filter_map(char::from_u32).collect()
     } else {
